@@ -197,7 +197,7 @@ def gen_put_world(rng, profile="mixed"):
     elif m < 0.30:
         opts["mode"] = "interactive"
     if rng.random() < 0.12:
-        td = rng.choice([R + b"/custom-trash", rng.choice(vols) + b"/ct", b"rel-trash"])
+        td = rng.choice([R + b"/data/custom-trash", rng.choice(vols) + b"/stuff/ct", rng.choice(vols) + b"/ct", b"rel-trash"])
         opts["trashDir"] = td
     if rng.random() < 0.2:
         opts["homeFallback"] = True
@@ -327,6 +327,29 @@ def gen_put_world(rng, profile="mixed"):
                         w.link(tdir + b"/files/" + nm + sfx, b"nowhere")
                     if what == "payload-dir":
                         w.file(tdir + b"/files/" + nm + sfx + b"/inner", b"old dir")
+    td0 = opts.get("trashDir")
+    if td0 is not None and td0.startswith(R + b"/") and rng.random() < (0.7 if profile == "collide" else 0.3):
+        # --trash-dir spelled through a symbolic link followed by '..': the kernel follows the link before going up; a
+        # textual collapse names another directory - where a decoy trash directory with the same names waits
+        par, bn = os.path.dirname(td0), os.path.basename(td0)
+        if par not in w.nodes and par != R and os.path.dirname(par) in w.nodes and w.nodes[os.path.dirname(par)]["k"] == "d":
+            w.dir(par)
+        if par + b"/jump" not in w.nodes and par + b"/deep" not in w.nodes and (par in w.nodes or par == R):
+            w.dir(par + b"/deep/inner")
+            w.link(par + b"/jump", par + b"/deep/inner")
+            spelled = par + b"/jump/../../" + bn
+            lex = os.path.normpath(spelled)
+            if lex != td0 and lex.startswith(R + b"/") and lex not in w.nodes and os.path.dirname(lex) in w.nodes:
+                opts["trashDir"] = spelled
+                w.dir(lex, 0o700)
+                w.dir(lex + b"/files", 0o700)
+                w.dir(lex + b"/info", 0o700)
+                for m_ in meta:
+                    if "entry" in m_ and len(os.path.basename(m_["entry"])) < 200:
+                        nm = os.path.basename(m_["entry"])
+                        w.file(lex + b"/files/" + nm, b"decoy payload: nobody named this directory")
+                        w.file(lex + b"/info/" + nm + b".trashinfo", b"[Trash Info]\nPath=/decoy\nDeletionDate=2020-01-01T00:00:00\n", 0o600)
+                        w.file(lex + b"/files/" + nm + b"_1/inner", b"decoy dir")
     stdin = None
     if opts.get("mode") == "interactive":
         replies = [rng.choice([b"y", b"Y", b"yes", b"n", b"", b"x", b"N", b" y"]) for _ in range(rng.randint(0, nargs))]
@@ -422,7 +445,8 @@ def add_malformed(rng, w, tdir, kind, i, good_names=None):
         w.file(info + n + b".trashinfo", bytes(range(256)) * 2)
         w.file(tdir + b"/files/" + n, b"p")
     elif kind == "non-utf8":
-        w.file(info + n + b".trashinfo", b"[Trash Info]\nPath=" + rng.choice([b"/SBX/w/\xff\xfe-%d" % i, b"w/\xe9t\xe9-%d" % i]) + b"\nDeletionDate=2024-03-01T12:00:00\n")
+        w.file(info + n + b".trashinfo", b"[Trash Info]\nPath=" + rng.choice([b"/SBX/w/\xff\xfe-%d" % i, b"w/\xe9t\xe9-%d" % i, b"/SBX/w/caf\xe9%%20au%%20lait-%d" % i,
+                                                                         b"w/%%41\xff%%zz-%d" % i]) + b"\nDeletionDate=2024-03-01T12:00:00\n")
         w.file(tdir + b"/files/" + n, b"p")
     elif kind == "no-path":
         w.file(info + n + b".trashinfo", b"[Trash Info]\nDeletionDate=2020-01-01T00:00:00\n")
@@ -483,9 +507,28 @@ def gen_trash_world(rng, cmd, profile="mixed"):
         if alt not in w.nodes or w.nodes[alt]["k"] == "d":
             tdirs.append((alt, v))
     custom = None
+    custom_spelling = None
     if rng.random() < 0.25:
         custom = rng.choice([R + b"/custom-trash", rng.choice(vols) + b"/ct"])
         tdirs.append((custom, None))
+        if rng.random() < 0.35:
+            # the same directory named through a symbolic link and '..': the kernel follows the link first, a textual
+            # collapse of "link/.." would name another directory (where a decoy trash directory waits)
+            par = os.path.dirname(custom)
+            w.dir(par + b"/deep/inner")
+            w.link(par + b"/deep/inner/up", b"../..")
+            custom_spelling = par + b"/deep/inner/up/" + os.path.basename(custom)     # = custom for the kernel
+            decoy = par + b"/deep/inner/" + os.path.basename(custom)                   # what "up/.." would collapse to... not used
+            w.link(par + b"/jump", par + b"/deep/inner")
+            custom_spelling = par + b"/jump/../../" + os.path.basename(custom)          # kernel: par/deep/inner/../../X = par/X
+            lex = os.path.normpath(custom_spelling)                                    # lexical: par/../X
+            if lex != custom and lex.startswith(R + b"/") and lex not in w.nodes:
+                w.dir(lex, 0o700)
+                w.dir(lex + b"/files", 0o700)
+                w.dir(lex + b"/info", 0o700)
+                w.file(lex + b"/files/decoy-orphan", b"must survive: nobody named this directory")
+                w.file(lex + b"/info/decoy.trashinfo", b"[Trash Info]\nPath=" + R + b"/w/decoy\nDeletionDate=1990-01-01T00:00:00\n", 0o600)
+                w.file(lex + b"/files/decoy", b"decoy payload")
     names = list(ORIGIN_NAMES)
     rng.shuffle(names)
     entries = []
@@ -512,6 +555,8 @@ def gen_trash_world(rng, cmd, profile="mixed"):
             if rng.random() < 0.12:
                 # the same original location trashed a second time (another generation of the file)
                 d2 = rng.choice([x for x in DATES if truthy_date(x) and x != date])
+                if truthy_date(date) and rng.random() < 0.4:
+                    d2 = date           # trashed twice within the same second: two entries, identical line
                 t2 = nm + b"_%d" % rng.randint(3, 9)
                 if tdir + b"/info/" + t2 + b".trashinfo" not in w.nodes:
                     rec2 = add_good(rng, w, tdir, base, t2, loc, d2, sentinel, kinds)
@@ -540,11 +585,11 @@ def gen_trash_world(rng, cmd, profile="mixed"):
     opts, args, stdin = {}, [], None
     if cmd == "list":
         if custom and rng.random() < 0.7:
-            opts["userDirs"] = [custom] + ([tdirs[0][0]] if rng.random() < 0.3 else [])
+            opts["userDirs"] = [custom_spelling or custom] + ([tdirs[0][0]] if rng.random() < 0.3 else [])
     elif cmd == "restore":
         opts["sort"] = rng.choice(["date", "date", "path", "none"])
         if custom and rng.random() < 0.7:
-            opts["trashDir"] = custom
+            opts["trashDir"] = custom_spelling or custom
         if rng.random() < 0.3:
             opts["overwrite"] = True
         if rng.random() < 0.4 and entries:
@@ -583,7 +628,7 @@ def gen_trash_world(rng, cmd, profile="mixed"):
         elif rng.random() < 0.3:
             opts["ttyDefault"] = True           # neither -i nor -f and stdin is not a terminal: no question
         if custom and rng.random() < 0.6:
-            opts["userDirs"] = [custom]
+            opts["userDirs"] = [custom_spelling or custom]
         if not opts.get("ttyDefault") and rng.random() < 0.25:
             # -f and -i together: as with rm, the last one wins
             if opts.get("interactive"):
@@ -596,7 +641,11 @@ def gen_trash_world(rng, cmd, profile="mixed"):
             e = rng.choice(entries)
             pats += [os.path.basename(e["loc"]), e["loc"], os.path.dirname(e["loc"]) + b"/*"]
         args = [rng.choice(pats)]
-    world = w.world(env=env, uid=uid, cwd=cwd, cmd=cmd, opts=opts, args=args, stdin=stdin,
+    extra = {}
+    if rng.random() < 0.2 and len(w.mounts) > 1:
+        # the listing spells some mount points with a trailing slash (as it always does for "/")
+        extra["mountTable"] = [m + b"/" if (m != R and rng.random() < 0.7) else m for m in w.mounts]
+    world = w.world(env=env, uid=uid, cwd=cwd, cmd=cmd, opts=opts, args=args, stdin=stdin, **extra,
                     meta={"entries": entries, "tdirs": tdirs, "profile": profile, "payload_kinds": kinds, "sentinels": [R + b"/outside"]})
     from .model import cmd_argv
     world["argv"] = cmd_argv(world)
